@@ -16,9 +16,11 @@ the buffer, and start_reply precedes re-opening the array;
 (c) rewind on overflow: in HandlerInvoker::process_{read,write,invoke} and in send_array_items, from the error edge of the handler call
 every path passes WriteBuf::rewind_to with the position taken by get_tail() before the call; in report_attributes the NoSpace arm
 sends the chunk and retries the same item (the item iterator is not advanced before process_read runs again);
-(d) list streaming: in send_array_items the index moves None -> 0 -> +1 only on the Ok edge of the item read.
+(d) list streaming: in send_array_items the request's list_index field (None -> 0 -> +1) is rewritten inside the loop only over the Ok edge of
+the item read, so a payload that did not fit is retried in the next chunk; (e) every IM buffer a report is built in is resized to a constant
+not above MAX_EXCHANGE_TX_BUF_SIZE (a chunk that one exchange message cannot carry is never delivered).
 """
-CLAUSES = ['a: trailer byte bound <= reserve', 'b: only the last chunk ends the interaction', 'c: rewind on overflow, retry the same item', 'd: list index discipline']
+CLAUSES = ['a: trailer byte bound <= reserve', 'b: only the last chunk ends the interaction', 'c: rewind on overflow, retry the same item', 'd: list index discipline', 'e: report buffers sized to one exchange message']
 NOT_DECIDED = ['concatenation of chunks equals the one-shot expansion', 'element boundaries of handler-produced lists', 'size arithmetic for arbitrary values']
 MIN_OBLIGATIONS = {'q': 20, 'd': 20, 'r': 20}
 
@@ -173,17 +175,47 @@ def check(R):
     # ---- d --------------------------------------------------------------------
     with R.clause('d'):
         sa = async_body(R, RD + '::send_array_items')
-        res = named_local(sa, 'result')
-        ok_edges, _ = prims.enum_local_edges(F, sa, lambda pl: pl[0] in res and len(pl) == 1, 'core::result::Result', ['Ok'])
-        li = named_local(sa, 'list_index')
-        nl = named_local(sa, 'new_list_index')
-        adv = sorted({i for i, j, s in sa.stmts() if len(s[0]) == 1 and s[0][0] in set(li) | set(nl) and i != 0} - _init_blocks(sa, li))
-        R.floor('index updates in send_array_items', len(adv), 1)
-        R.cut('P2', sa, 'advance the list index', adv, 'the item read returned Ok', ok_edges)
-        adds = [(i, s) for i, j, s in sa.stmts() if s[1].get('op') == 'bin' and s[1].get('b') in ('Add', 'AddWithOverflow') and any(l in li for l in [op_place(a)[0] for a in s[1]['a'] if op_place(a)] + list(_locals(sa, s[1]['a'][0])))]
-        R.expect('P6', sa.fn, 'the index advances by exactly one', len(adds) == 1 and adds[0][1][1]['a'][1].get('k', {}).get('v') == 1, '+ 1', f'{[(s[1]["a"][1]) for i, s in adds]}')
-        zeros = [i for i, j, s in sa.stmts() if len(s[0]) == 1 and s[0][0] in nl and s[1].get('op') == 'use' and s[1]['a'][0].get('k', {}).get('v') == 0]
-        R.expect('P6', sa.fn, 'the first item index is 0', len(zeros) >= 1, '0', 'first index is not the constant 0')
+        rd = sa.calls('im::invoker::HandlerInvoker::read')
+        R.floor('invoker.read in send_array_items', len(rd), 1)
+        tr = prims.track_result(F, sa, rd[0])
+        # the request handed to the handler: the local AttrDetails clone whose list_index field selects the payload
+        req = {l for l in range(len(sa.locals or ())) if sa.local_ty(l).endswith('AttrDetails') or 'AttrDetails<' in sa.local_ty(l) and not sa.local_ty(l).startswith('&')}
+        writes = sorted({i for i, j, st in sa.stmts() if st[0][0] in req and any(isinstance(x, str) and x.startswith('.list_index:') for x in st[0][1:])})
+        in_loop = prims.reach(sa, sa.succ[rd[0].bb])
+        adv = [b for b in writes if b in in_loop]
+        R.floor('list_index writes in send_array_items', len(writes), 2)
+        R.floor('list_index writes after the item read (inside the loop)', len(adv), 1)
+        R.cut_from('P2', sa, rd[0].d['to'], 'select the next payload (write attr.list_index)', adv, 'the item read returned Ok (NoSpace retries the same payload)', tr.success)
+        adds = [(i, st) for i, j, st in sa.stmts() if st[1].get('op') == 'bin' and st[1].get('b') in ('Add', 'AddWithOverflow') and not sa.is_cleanup(i)]
+        R.expect('P6', sa.fn, 'the index advances by exactly one', len(adds) == 1 and adds[0][1][1]['a'][1].get('k', {}).get('v') == 1, '+ 1', f'{[(st[1]["a"][1]) for i, st in adds]}')
+        vals = set()
+        for i, j, st in sa.stmts():
+            if i in adv and st[0][0] in req and any(isinstance(x, str) and x.startswith('.list_index:') for x in st[0][1:]):
+                for a in st[1].get('a', ()):
+                    vals |= prims.sources(sa, a, through=('utils::maybe::Maybe::some', 'utils::maybe::Maybe::new'))
+        R.expect('P6', sa.fn, 'the first item index is 0', ('const', 0) in vals, '0', f'constants reaching the index: {sorted(x[1] for x in vals if x[0] == "const" and x[1] is not None)}')
+
+    # ---- e --------------------------------------------------------------------
+    with R.clause('e'):
+        clause_e(R)
+
+
+def clause_e(R):
+    """(e) every buffer a report / response is built in is sized to what one exchange message can carry"""
+    import p7
+    F = R.facts
+    MAXP = 'transport::exchange::MAX_EXCHANGE_TX_BUF_SIZE'
+    mx = F.const_val(MAXP)
+    if not isinstance(mx, int):
+        raise AnchorLost(f'{MAXP} has no evaluated value')
+    sites = [(b, t) for b in F.bodies.values() if b.focus and b.fn.startswith('im::') and '::tests::' not in b.fn
+             for t in b.calls('utils::storage::vec::Vec::resize_default')]
+    R.floor('IM TX buffer sizing sites (resize_default in im::)', len(sites), 2)
+    for n, (b, t) in enumerate(sorted(sites, key=lambda x: (x[0].fn, x[1].line))):
+        k = p7.expr_key(b, t.d['a'][1])
+        c = p7._eval_key(k)
+        R.expect('P6', b.fn, f'TX buffer sizing #{n + 1}: the size is a compile-time constant not above MAX_EXCHANGE_TX_BUF_SIZE ({mx})', c is not None and 0 < c <= mx,
+                 f'{k}', f'resize_default({k}): not a constant <= {mx}; a chunk built in this buffer can exceed what Exchange::send can carry', b.where(t.bb))
 
 
 def _between(body, target, tails):
